@@ -70,6 +70,14 @@ func (p *c11Proj) render() map[string]string {
 			fmt.Fprintf(b, "      - for:\n          matrix:\n            A: {ref: .LIST}\n            B: [u, v]\n        cmd: %s\n", yamlq(m))
 		}
 	}
+	// a wildcard task called concurrently from one for-dep with template-free vars: each call has its own MATCH
+	root.WriteString("  'w-*':\n    vars:\n      M: '{{index .MATCH 0}}'\n    cmds:\n      - cmd: " + yamlq(`printf 'OBS wild x=%s mode=%s\n' '{{.M}}' '{{.MODE}}' >> "$VERIF_TRACE"`) + "\n")
+	root.WriteString("  ctx-wild:\n    deps:\n      - for: [a, b, c, d, e, f, g, h]\n        task: 'w-{{.ITEM}}'\n        vars: {MODE: release}\n")
+	root.WriteString("  ctx-wild-seq:\n    cmds:\n      - for: [a, b, c]\n        task: 'w-{{.ITEM}}'\n        vars: {MODE: release}\n")
+	// a dotenv file rewritten by one task between two runs of another: the file system at the time of the run counts
+	root.WriteString("  dotshow:\n    dotenv: ['dyn.env']\n    cmds:\n      - cmd: " + yamlq(`printf 'OBS dotshow x=%s\n' "$DV" >> "$VERIF_TRACE"`) + "\n")
+	root.WriteString("  dotwrite:\n    cmds:\n      - cmd: " + yamlq(`printf 'DV=two\n' > dyn.env`) + "\n")
+	root.WriteString("  ctx-dotenv:\n    cmds:\n      - task: dotshow\n      - task: dotwrite\n      - task: dotshow\n")
 	// wrappers (contexts)
 	names := func() []string {
 		var out []string
@@ -99,6 +107,7 @@ func (p *c11Proj) render() map[string]string {
 	files["Taskfile.yml"] = root.String()
 	files["incdir/Taskfile.yml"] = inc.String()
 	files["val.txt"] = "file-root\n"
+	files["dyn.env"] = "DV=one\n"
 	files["incdir/val.txt"] = "file-incdir\n"
 	for _, t := range p.Tasks {
 		if t.Dir != "" {
@@ -256,6 +265,38 @@ func runC11(id string, start time.Time) int {
 						fmt.Sprintf("task %s (X=%s) observes %s differently in context %q than alone", t.Name, x, fields, c.kind),
 						c11Witness(files, c.kind, c.args, want, got, tr))
 				}
+			}
+		}
+		// contexts whose expectation is known by construction
+		fixed := []struct {
+			kind string
+			args []string
+			want []string
+		}{
+			{"wildcard-calls-from-one-for-dep", []string{"ctx-wild"}, []string{"OBS wild x=a mode=release", "OBS wild x=b mode=release", "OBS wild x=c mode=release", "OBS wild x=d mode=release", "OBS wild x=e mode=release", "OBS wild x=f mode=release", "OBS wild x=g mode=release", "OBS wild x=h mode=release"}},
+			{"wildcard-calls-sequential", []string{"ctx-wild-seq"}, []string{"OBS wild x=a mode=release", "OBS wild x=b mode=release", "OBS wild x=c mode=release"}},
+			{"dotenv-rewritten-between-two-runs", []string{"ctx-dotenv"}, []string{"OBS dotshow x=one", "OBS dotshow x=two"}},
+		}
+		for _, fc := range fixed {
+			os.WriteFile(filepath.Join(dir, "dyn.env"), []byte("DV=one\n"), 0o644)
+			r, tr := run(fc.args...)
+			part.Eval(h.Hash(files["Taskfile.yml"], fc.kind), true)
+			part.SetAdd("contexts", fc.kind)
+			if r.TimedOut {
+				part.Inconc("watchdog in context " + fc.kind)
+				continue
+			}
+			var got []string
+			for _, l := range strings.Split(tr, "\n") {
+				if strings.HasPrefix(l, "OBS wild ") || strings.HasPrefix(l, "OBS dotshow ") {
+					got = append(got, l)
+				}
+			}
+			sort.Strings(got)
+			part.Count("comparisons", 1)
+			if r.Exit != 0 || strings.Join(got, "\n") != strings.Join(fc.want, "\n") {
+				part.Violation(fmt.Sprintf("C11 | differs | ctx=%s", fc.kind), fmt.Sprintf("context %s: exit %d, observed %v, expected %v", fc.kind, r.Exit, got, fc.want),
+					c11Witness(files, fc.kind, fc.args, fc.want, got, tr))
 			}
 		}
 		part.Sample(map[string]any{"tasks": p.Tasks, "contexts": len(ctxs)}, 3)
